@@ -11,6 +11,7 @@ from ..core.progdb import AnalysisError, walk_no_nested, call_name
 from ..core.values import Frame, Obj, PyTuple, to_term
 from ..specs.merge import check_term
 from .c05 import leaves
+from .c05 import leaves as _leaves5
 
 EXPLANATION = (
     "Static analysis of CPGraph in hta/analyzers/critical_path_analysis.py: symbolic evaluation of _create_event_nodes (two node rows per selected event: "
@@ -66,11 +67,13 @@ def _nodes(db, chk, m):
         chk.ob(rule, "_create_event_nodes: one path", None, where, found=len(runs))
         return
     r = runs[0]
-    nd = next((v for v in r.env.values() if isinstance(v, Frame) and v.base[0] == "concat" and v.rows == T.TRUE and v.has("idx")), None)
-    if not isinstance(nd, Frame) or nd.base[0] != "concat":
+    # (the start rows and the end rows stacked: by pd.concat of two copies, or by melt over the two time columns)
+    nd = next((v for v in r.env.values() if isinstance(v, Frame) and v.base[0] in ("concat", "melt") and v.rows == T.TRUE and v.has("idx")), None)
+    leaves = lambda t_: _leaves5(t_, melt=True)          # noqa: E731 - pieces of a concatenated OR melted column
+    if not isinstance(nd, Frame) or nd.base[0] not in ("concat", "melt"):
         chk.ob(rule, "node frame = concat of the start rows and the end rows", None if not isinstance(nd, Frame) else False, where, found=repr(nd)[:120], accepted="pd.concat([starts, ends])")
         return
-    parts = [p for k, p in nd.base[2]]
+    parts = [p for k, p in nd.base[2]] if nd.base[0] == "concat" else ([nd.base[1]] * len(nd.base[3]) if nd.base[3] else [])
     same_rows = len(parts) == 2 and parts[0] == parts[1] and parts[0][0] == TD
     chk.ob(rule, "start rows and end rows come from the same selection of events (one start node and one end node per event)", same_rows, where,
            found=[T._ctx(p)[:160] for p in parts], accepted="both halves built from the same events frame")
@@ -131,6 +134,19 @@ def _nodes(db, chk, m):
     filt = [e for e in r.events if e["kind"] == "filter" and e["func"].endswith("_create_event_nodes") and e.get("base") == nd.base]
     preds = [e["pred"] for e in filt]
     okhalves = len(preds) == 2 and preds[0] == nd.col("is_start") and preds[1] == T.not_(nd.col("is_start"))
+
+    def map_from_nodes(t, flag):
+        """{node.ev_idx: node.idx for node in self.node_list if [not] node.is_start} - the same halves read off the node objects (whose fields are the columns, checked above)"""
+        if not (isinstance(t, tuple) and len(t) == 5 and t[0] == "comp" and t[1] == "dict" and t[3] == to_term(nl) and isinstance(t[2], tuple) and t[2][0] == "kv"):
+            return False
+        k_, v_ = t[2][1], t[2][2]
+        if not (isinstance(k_, tuple) and k_[0] == "attr" and k_[2] == "ev_idx" and isinstance(v_, tuple) and v_[0] == "attr" and v_[2] == "idx" and k_[1] == v_[1]):
+            return False
+        st_ = ("attr", k_[1], "is_start")
+        return t[4] in ((("truthy", st_), st_) if flag else (T.not_(("truthy", st_)), T.not_(st_)))
+    if okz and map_from_nodes(sm, True) and map_from_nodes(em, False):
+        sm = em = ("dictzip", nd.col("ev_idx"), nd.col("idx"))
+        okhalves = True
     chk.ob(rule, "start map is built from the is_start rows and end map from the other rows, both as {ev_idx: idx}", map_ok(sm, True) and map_ok(em, False) and okhalves, where,
            found={"filters": [T.show(p)[:80] for p in preds]}, accepted=["nodes_df[is_start]", "nodes_df[~is_start]"])
     chk.floor(rule, 8)
